@@ -128,8 +128,14 @@ func cmdRun(args []string) {
 	fs.Parse(args)
 	loadSites(*sitesFile)
 
+	gcOwned := *lane == "sim" && *prop != "C07"
 	if *lane == "sim" {
 		runtime.GOMAXPROCS(1)
+	}
+	if gcOwned {
+		// GC is taken out of the picture while a run executes (sync.Pool and
+		// finalizer behaviour must not depend on when the collector happens to
+		// run) and invoked explicitly between runs.
 		debug.SetGCPercent(-1)
 		debug.SetMemoryLimit(8 << 30)
 	}
@@ -159,8 +165,12 @@ func cmdRun(args []string) {
 				break
 			}
 		}
-		if *lane == "sim" && run%4 == 3 {
-			runtime.GC()
+		if gcOwned {
+			var ms runtime.MemStats
+			runtime.ReadMemStats(&ms)
+			if ms.HeapAlloc > 192<<20 || run%16 == 15 {
+				runtime.GC()
+			}
 		}
 	}
 	stats.WallS = time.Since(t0).Seconds()
